@@ -2,6 +2,8 @@
 import concurrent.futures
 import json
 import os
+import re
+import threading
 import vlib
 
 PID = "C20"
@@ -33,9 +35,18 @@ CFG = {
 LIBS = ("mptcore", "mptplot")
 
 
+_LOCK = threading.Lock()
+
+
+def viol(ck, sig, detail):
+    """two drivers are judged side by side: serialise the bookkeeping"""
+    with _LOCK:
+        return ck.violation(sig, detail)
+
+
 def match(exp, obs, step, rec, prev):
     """Verdict projection: answer class, every property of both objects, shared string storage."""
-    for k in ("ret", "cname", "val", "col", "shared"):
+    for k in ("ret", "cname", "val", "col", "la", "txt", "shared"):
         if k in exp and exp[k] != "any" and obs.get(k) != exp[k]:
             return "%s: expected %s, observed %s" % (k, json.dumps(exp[k])[:200], json.dumps(obs.get(k))[:200])
     for pk in ("p0", "p1"):
@@ -74,6 +85,8 @@ def signature(mm, kind):
         parts.append(name_of(arg).lower())
     if a in ("set", "auto"):
         parts.append("f=" + str(arg.get("f")))
+    if a == "sset":
+        parts.append("m=" + str(arg.get("m")))
     if a == "copy":
         parts.append("mode=%s%s" % (arg.get("mode"), ":self" if arg.get("o") == arg.get("from") else ""))
         if arg.get("mode") == "props" and arg.get("o") != arg.get("from"):
@@ -253,9 +266,12 @@ def gen_histories(ck, n, steps, cxx=False):
             r = rng.random()
             o = 0 if rng.random() < 0.75 else 1
             if r < 0.55:
-                beh.append({"a": "set", "arg": dict({"o": o, "name": codes(rng.choice(names))}, **rand_value(rng))})
+                v = rand_value(rng)
+                if v["f"] in ("num", "txt", "rle") and rng.random() < 0.2:
+                    v["f"] = "p" + v["f"]              # same text through mpt_object_set_property
+                beh.append({"a": "set", "arg": dict({"o": o, "name": codes(rng.choice(names))}, **v)})
             elif r < 0.65:
-                beh.append({"a": "reset", "arg": {"o": o, "name": codes(rng.choice(names))}})
+                beh.append({"a": "reset", "arg": {"o": o, "name": codes(rng.choice(names)), "f": rng.choice(["null", "null", "pnull"])}})
             elif r < 0.75:
                 beh.append({"a": "get", "arg": {"o": o, "name": codes(rng.choice(names))}})
             elif r < 0.84:
@@ -278,7 +294,21 @@ def gen_histories(ck, n, steps, cxx=False):
                 beh.append({"a": "auto", "arg": dict({"o": o}, **v)})
             else:
                 w = rng.choice(WORDS + ["#" + "".join(rng.choice("0123456789abcdefABCDEFg") for _ in range(rng.choice([2, 4, 6, 6, 8, 8, 3, 10])))])
-                if cxx and rng.random() < 0.4:
+                q = rng.random()
+                pick = lambda: rng.choice([-300, -1, 0, 1, 5, 6, 8, 9, 10, 11, 20, 21, 255, 256, 70000])
+                if not cxx and q < 0.15:
+                    beh.append({"a": "cset", "arg": {"r": pick(), "g": pick(), "b": pick()}})
+                elif not cxx and q < 0.25:
+                    beh.append({"a": "calpha", "arg": {"v": pick()}})
+                elif not cxx and q < 0.45:
+                    beh.append({"a": "lset", "arg": {"w": pick(), "st": pick(), "sy": pick(), "sz": pick()}})
+                elif not cxx and q < 0.7:
+                    c = rand_string_rle(rng)
+                    tot = sum(c[1::2])
+                    m = rng.choice(["new", "new", "self", "tail"])
+                    n = rng.choice([-1, 0, 1, tot // 2, tot, tot + 1]) if m == "new" else rng.choice([0, 1, 2, 5, 300])
+                    beh.append({"a": "sset", "arg": {"o": o, "m": m, "c": c if m == "new" else [], "n": n}})
+                elif cxx and q < 0.4:
                     beh.append({"a": "cprint", "arg": {"c": [rng.choice([0, 1, 9, 10, 15, 16, 127, 128, 171, 254, 255]) for _ in range(4)]}})
                 else:
                     beh.append({"a": "cparse", "arg": {"c": codes(w)}})
@@ -292,12 +322,26 @@ def trace_part(ck, hist, recs2, tag, nt, pfx="", max_rounds=8):
     total = len(events)
     bad = set()
     matched_total = 0
+    for n, ev in enumerate(events):       # faults need no TLC run: report and leave the history out
+        if ev["a"] in ("Crash", "Hang", "Missing"):
+            beh = hist[ev["b"]]
+            stp = dict(ev)
+            stp["a"] = beh[ev["i"]]["a"]
+            viol(ck, pfx + "trace:" + signature({"step": stp, "why": ev["a"], "rec": ev}, kind_of(beh)),
+                         {"binding": "B(trace validation) " + tag, "rejected_event": ev, "behaviour": beh[:ev["i"] + 1],
+                          "trace": True, "driver": pfx})
+            bad.add(ev["b"])
     for rnd in range(max_rounds):
         evs = [e for e in events if e["b"] not in bad]
         if not evs:
             break
         ok, matched, tres = vlib.validate_trace("Trace_Layout", evs, tag=tag)
-        ck.cov["transitions"] += tres.generated
+        with _LOCK:
+            ck.cov["transitions"] += tres.generated
+        m = re.findall(r'<<"CLASSES", (\d+), (\d+), (\d+), (\d+), (\d+), (\d+)>>', tres.out)
+        if m:       # TLC's own classification of the recorded set calls
+            ck.notes["trace_set_classes_" + tag] = dict(zip(("ok", "refused", "either", "silent", "unknown_name", "other_calls"),
+                                                            (int(x) for x in m[-1])))
         if ok:
             matched_total = matched
             break
@@ -308,7 +352,7 @@ def trace_part(ck, hist, recs2, tag, nt, pfx="", max_rounds=8):
         matched = min(matched, matched2)
         ev = evs[matched] if matched < len(evs) else None
         if not ev:
-            ck.violation("trace:short", {"binding": "B(trace validation) " + tag, "matched_prefix": matched})
+            viol(ck, "trace:short", {"binding": "B(trace validation) " + tag, "matched_prefix": matched})
             break
         beh = hist[ev["b"]]
         inv = tres2.violation if tres2.violation and "Postcondition" not in tres2.violation else None
@@ -316,7 +360,7 @@ def trace_part(ck, hist, recs2, tag, nt, pfx="", max_rounds=8):
         stp = dict(ev)
         if why in ("Crash", "Hang", "Missing"):
             stp["a"] = beh[ev["i"]]["a"]
-        ck.violation(pfx + "trace:" + signature({"step": stp, "why": why, "rec": ev,
+        viol(ck, pfx + "trace:" + signature({"step": stp, "why": why, "rec": ev,
                                                  "prev": evs[matched - 1] if matched and evs[matched - 1]["b"] == ev["b"] else None},
                                                 kind_of(beh)),
                      {"binding": "B(trace validation) " + tag, "matched_prefix": matched, "rejected_event": ev, "tlc": inv,
@@ -331,11 +375,12 @@ def trace_part(ck, hist, recs2, tag, nt, pfx="", max_rounds=8):
         good += 1
         if nontrivial(beh, by2.get(b, [])):
             nt.add(json.dumps([(s["a"], s.get("arg")) for s in beh], sort_keys=True))
-    ck.cov["traces_validated_against_impl"] += good if matched_total else 0
-    ck.cov["evaluations"] += len(hist)
-    ck.notes["trace_events_" + tag] = total
-    ck.notes["trace_events_matched_" + tag] = matched_total
-    ck.notes["trace_histories_rejected_" + tag] = len(bad)
+    with _LOCK:
+        ck.cov["traces_validated_against_impl"] += good if matched_total else 0
+        ck.cov["evaluations"] += len(hist)
+        ck.notes["trace_events_" + tag] = total
+        ck.notes["trace_events_matched_" + tag] = matched_total
+        ck.notes["trace_histories_rejected_" + tag] = len(bad)
 
 
 def build():
@@ -357,23 +402,62 @@ def c_only(beh):
     return True
 
 
+DRV_ENV = {"ASAN_OPTIONS": vlib.ASAN_ENV + ":symbolize=0"}    # a fault costs milliseconds, not a symbolizer run
+PROBE = 40
+
+
+def faulted(rs):
+    return any(r.get("a") in ("Crash", "Hang") for r in rs)
+
+
+C_ONLY_ACTIONS = ("cset", "calpha", "lset", "sset")     # plain C calls, not part of the C++ driver
+
+
+def cxx_able(beh):
+    return all(st["a"] not in C_ONLY_ACTIONS for st in beh)
+
+
 def replay_part(ck, exe, behs, tag, nt):
-    recs, _ = vlib.run_driver(exe, vlib.to_script(behs))
+    """Replay; per kind a small probe goes first: when most of it faults (a defect on the read-back path of
+    every step) the probe's mismatches are reported and the bulk of that kind is not run."""
+    kinds = {}
+    for beh in behs:
+        kinds.setdefault(kind_of(beh), []).append(beh)
+    probe, skipped = [], []
+    for k, lst in kinds.items():
+        probe += lst[:PROBE // 2] + lst[-(PROBE // 2):]
+    precs, _ = vlib.run_driver(exe, vlib.to_script(probe), env=DRV_ENV)
+    pby = vlib.group_records(precs)
+    bad = {}
+    for b, beh in enumerate(probe):
+        k = kind_of(beh)
+        bad.setdefault(k, [0, 0])
+        bad[k][1] += 1
+        if faulted(pby.get(b, [])):
+            bad[k][0] += 1
+    skipped = [k for k, (f, n) in bad.items() if 2 * f > n]
+    if skipped:
+        todo = [b for b in probe if kind_of(b) in skipped] + [b for b in behs if kind_of(b) not in skipped]
+        ck.notes["replay_kinds_cut_after_probe_" + (tag or "c")] = skipped
+    else:
+        todo = behs
+    recs, _ = vlib.run_driver(exe, vlib.to_script(todo), env=DRV_ENV, timeout=900)
+    behs = todo
     mms = vlib.compare(behs, recs, match)
     by0 = vlib.group_records(recs)
     for mm in mms:
         beh = behs[mm["b"]]
         if mm["i"] > 0 and len(by0.get(mm["b"], [])) >= mm["i"]:
             mm["prev"] = by0[mm["b"]][mm["i"] - 1]
-        ck.violation(tag + signature(mm, kind_of(beh)), {"binding": "A(replay) " + (tag or "c"), "behaviour": beh, "step": mm["i"],
+        viol(ck, tag + signature(mm, kind_of(beh)), {"binding": "A(replay) " + (tag or "c"), "behaviour": beh, "step": mm["i"],
                                                          "why": mm["why"], "record": mm["rec"], "driver": tag})
-    by = vlib.group_records(recs)
     for b, beh in enumerate(behs):
-        if nontrivial(beh, by.get(b, [])):
+        if nontrivial(beh, by0.get(b, [])):
             nt.add(json.dumps([(s["a"], s.get("arg")) for s in beh], sort_keys=True))
-    ck.cov["evaluations"] += len(behs)
-    ck.notes["replayed_behaviours_" + (tag or "c")] = len(behs)
-    ck.notes["replay_mismatches_" + (tag or "c")] = len(mms)
+    with _LOCK:
+        ck.cov["evaluations"] += len(behs)
+        ck.notes["replayed_behaviours_" + (tag or "c")] = len(behs)
+        ck.notes["replay_mismatches_" + (tag or "c")] = len(mms)
 
 
 def run(tier):
@@ -394,15 +478,15 @@ def run(tier):
         raise vlib.MachineryError("behaviour export failed: %s %s" % (gen.error, gen.violation))
     behs = vlib.parse_behaviours(gen.out)
     nt = set()
-    fut = pool.submit(replay_part, ck, exe_cxx, behs, "cxx:", nt)
+    fut = pool.submit(replay_part, ck, exe_cxx, [b for b in behs if cxx_able(b)], "cxx:", nt)
     replay_part(ck, exe, [b for b in behs if c_only(b)], "", nt)
     fut.result()
 
     # 3. binding B: recorded executions with values across/beyond every range validated by TLC
     hist = gen_histories(ck, cfg["nhist"], cfg["steps"], cxx=False)
     hist2 = gen_histories(ck, cfg["nhist"] // 2, cfg["steps"], cxx=True)
-    recs2, _ = vlib.run_driver(exe, vlib.to_script(hist))
-    recs3, _ = vlib.run_driver(exe_cxx, vlib.to_script(hist2))
+    recs2, _ = vlib.run_driver(exe, vlib.to_script(hist), env=DRV_ENV)
+    recs3, _ = vlib.run_driver(exe_cxx, vlib.to_script(hist2), env=DRV_ENV)
     fut = pool.submit(trace_part, ck, hist2, recs3, "Trace_Layout_cxx", nt, "cxx:")
     trace_part(ck, hist, recs2, "Trace_Layout", nt, "")
     fut.result()
